@@ -17,3 +17,8 @@ def run(tier):
         rp, "every nesting of binder constructors of the lens with all name coincidences over {a,b,c}, "
             "built under reflect/lazy/normalize/eager and reinterpreted: no bound name among inputs, values equal Den")
     return out.finish()
+
+
+def replay_file(path):
+    from harness import replayfile
+    return replayfile.replay_term(path, "harness.modes:c05", "C05")
